@@ -67,3 +67,10 @@ claim('C07',
 claim('C11',
   'bounded model checking of the real overlap-tolerant functions (belt CBC/CFB/CTR/BDE/SDE/DWP/CHE/KWP/MAC/hash/HMAC/KRP, bashHash, memMove, memJoin, derEnc family, key expansion): all buffers are windows of one symbolic arena, dest at src + delta for a complete set of concrete deltas and lengths, auxiliary inputs inside or across dest/src where the header allows; outputs and return codes must equal those of the same function on pairwise disjoint copies, for ALL data; cipher/bash-f/GF product uninterpreted',
   'trusted: CBMC; the table of "buffers may overlap" remarks transcribed from the headers in props/C11.py; quick tier uses edge deltas plus the full delta range for one length per function', 'DESIGN.md 3/C11')
+
+claim('C17',
+  'bounded model checking of the real secure-messaging code (btok_sm.c with apdu.c, der.c, belt CFB/MAC) over an uninterpreted cipher: for the listed data lengths and every Lc/Le form, with header octets, data, keys and the 128-bit counter symbolic, a peer whose counter is in step recovers a protected command/response unchanged, and calls at a counter of the wrong parity are refused. CV certificates and key containers are NOT decided (they need signatures / PBKDF2 on symbolic data); tamper detection is not asserted under an uninterpreted MAC',
+  'trusted: CBMC; stubs/belt_block_uf.c; SM states laid out by hand with equal keys and counters', 'DESIGN.md 8.6')
+NA['C02'] = 'sign/verify completeness and rejection need 256-bit EC scalar multiplication on symbolic data (a single 64x64 Montgomery step at n = 3 has no verdict in 600 s); the range-check fragments of the design (over nondeterministic EC kernels) were not built in this session'
+NA['C04'] = 'key agreement of honest runs / divergence of tampered runs need EC scalar multiplication, KDF and MAC on symbolic data; the per-step fragments of the design (point validation order, confirmation-tag transcript) were not built in this session'
+NA['C16'] = 'as C02: the verification equations of bign96/g12s/dstu and pfok need multi-word field/curve arithmetic on symbolic data; range-check fragments not built in this session'
